@@ -32,6 +32,23 @@ int main(void) {
   __verif_noyield = 0;
   _Bool fin[VERIF_T + 1] = {0};
   unsigned last = 0, nfin = 0;
+#if VERIF_T == 2 && !defined(VERIF_PICK_DRIVER)
+  /* two threads: consecutive segments belong to different threads anyway, so the schedule is  [T1] T2 T1 T2 ...  with
+   * the first slot optional (solver's choice).  K+1 slots cover every schedule of at most K segments; each slot calls
+   * exactly one thread function, which halves the symbolic-execution cost compared with a symbolic pick.            */
+  _Bool skip_first = nondet_bool();
+  (void)last;
+  for (int seg = 0; seg < VERIF_K + 1; seg++) {
+    if (nfin == VERIF_T) break;
+    if (seg == 0 && skip_first) continue;
+    __verif_yielding = 0;
+    if ((seg & 1) == 0) {
+      if (!fin[1]) { __verif_tid = 1; h_thread1_T1(); if (!__verif_yielding) { fin[1] = 1; nfin++; } }
+    } else {
+      if (!fin[2]) { __verif_tid = 2; h_thread2_T2(); if (!__verif_yielding) { fin[2] = 1; nfin++; } }
+    }
+  }
+#else
   for (int seg = 0; seg < VERIF_K; seg++) {
     if (nfin == VERIF_T) break;
     unsigned pick = (unsigned)nondet_range(1, VERIF_T);
@@ -50,6 +67,7 @@ int main(void) {
     }
     if (!__verif_yielding) { fin[pick] = 1; nfin++; last = 0; } else last = pick;
   }
+#endif
   __verif_assume(nfin == VERIF_T);         /* schedules needing more than VERIF_K segments: outside the claim */
   __verif_noyield = 1;
 #ifdef HAVE_FINI
